@@ -1,5 +1,5 @@
 PROP = {
-    "thm": ["Umya.Thm.C19", "Umya.Thm.C19Gen"],
+    "thm": ["Umya.Thm.C19", "Umya.Thm.C19Gen", "Umya.Thm.C19Dispatch"],
     "harness": "c19",
     "level": "proof",
     "stateful": False,
@@ -10,18 +10,36 @@ PROP = {
                   "(exactly n decimals, every 4th character from the right a comma, sign kept, integer part = decimal text of the "
                   "rounded integer part). The model is tied to the code by ~2*10^4 (value, pattern) pairs per quick run, and the "
                   "implementation is compared on each with an independent u128 oracle. "
-                  "The clause 'never panics for any built-in format code': the known panic (date conversion leaving chrono's range, "
-                  "fix d30eec7) is modelled with chrono's TimeDelta / NaiveDateTime bounds; C19_date_no_panic proves that under the 11 "
-                  "built-in date/time codes whose dispatch the model covers (ids 14-22, 30, 45 of the regenerated table) EVERY value gets "
-                  "a text (chrono's rendering inside the range, the General text of the number beyond it); the other built-in codes "
-                  "(quoted literals, [$-..] prefixes, [h], sections, scientific, fractions) are exploration only (partial).",
+                  "The clause 'never panics for any built-in format code and any finite number': the dispatcher — to_formatted_string, "
+                  "split_format (sections, colours), format_as_number (quotes / * / thousands / scaling / fraction test / number regex / "
+                  "currency prefix), format_as_percentage, format_as_fraction, format_as_date (locale prefix, quoted literals, replacement "
+                  "tables, [h], checked conversion, chrono rendering) — is modelled (Model/NumFmtDispatch.lean) with every operation that can "
+                  "panic as an explicit outcome, the regexes as hand-written matchers. C19_builtin_no_panic proves for EVERY entry of the "
+                  "regenerated built-in table (58 ids: 0-4, 9-22, 27-40, 44-62, 67-70; C19_builtin_ids), every value text of the shape "
+                  "f64::to_string prints, every double / remainder text 0|0.D+ / hours text, that the model returns a text: no panic, "
+                  "nothing unmodelled. Per branch: C19_fraction_no_panic (ids 12, 13, 69, 70: usize-valued texts shown as they are, "
+                  "everything else — negative whole numbers, -0, >= 2^64 — through format_as_fraction, whose unwrap succeeds), "
+                  "C19_scientific_no_panic (ids 11, 48: rendered as fixed decimals, E+ ignored), C19_accounting_no_panic / "
+                  "C19_accounting44_no_panic (ids 37-40, 44: formatFixed of the ABSOLUTE value, parentheses lost), C19_text_no_panic (0, 49), "
+                  "C19_dispatch_matches_fixed (ids 1-4, 9, 10, 59-62, 67, 68 reach exactly formatFixed / formatPercent with the parameters "
+                  "C19_fixed / C19_percent assume), date ids 14-22, 27-36, 45-47, 50-58 via the checked conversion (C19_date_no_panic's model; "
+                  "C19_dispatch_date_agrees). Tied on every run by the disp stream: every id 0..70 x ~180 values (whole, negative whole, "
+                  "-0, halves, 1e-7, 5e-324, 1e20, 1e300, f64::MAX, 2^64 edge, rounding boundaries, long fractions, calendar edges), the "
+                  "FULL text compared (class only where the fraction formatter prints floats). "
+                  "Beyond the table: a format code that is one quoted literal (\"N/A\") panicked (parse::<f64>().unwrap()); repaired by "
+                  "fix_3, witness C19_quoted_literal_code_shown replayed on every run.",
     "level_note": "Trusted: Lean kernel + 3 standard axioms; the hand model's faithfulness as exercised by the correspondence stream; "
                   "Rust f64 FromStr/Display (shortest, positional, round trip; identity on decimal texts of <= 15 significant digits); "
-                  "the dispatch of to_formatted_string (regex section splitting, date/percent detection) is modelled only for the "
-                  "grammar and tied behaviourally.",
+                  "the hand-written matchers that stand for the fancy_regex patterns of the dispatcher, chrono's strftime on the specifiers "
+                  "the replacement tables produce, the three float operations behind Env (the double, abs % 1, * 24) are modelled, not verified: "
+                  "tied behaviourally by the disp stream.",
     "expect_theorems": ["C19_fixed", "C19_percent", "C19_pattern", "C19_shape", "C19_split_in_range", "C19_general", "C19_general_cell",
                         "C19_date_no_panic", "C19_date_out_of_range", "C19_date_checked_agrees", "C19_date_codes_covered",
-                        "C19_date_tables_match_source", "C19_date_checked_matches_source"],
+                        "C19_date_tables_match_source", "C19_date_checked_matches_source",
+                        "C19_builtin_ids", "C19_builtin_plans_ok", "C19_builtin_no_panic", "C19_fraction_no_panic",
+                        "C19_scientific_no_panic", "C19_accounting_no_panic", "C19_accounting44_no_panic", "C19_text_no_panic",
+                        "C19_dispatch_matches_fixed", "C19_dispatch_date_ids", "C19_dispatch_date_agrees",
+                        "C19_quoted_literal_code_shown", "C19_custom_code_panics"],
     "rule": "boundary values (the five witnesses of DESIGN section 4 row 17, halves, carries through nines, values rounding to zero, "
             "negative zero, 15-digit values, 1e-7..1e15) x all 28 patterns (0 / 0.0..0.000000, with and without #,##, with and "
             "without %) + General + @; 560 (quick) / 30000 (thorough) random decimal texts of 1..17 significant digits, magnitudes "
@@ -32,14 +50,21 @@ PROP = {
             "calendar (95051805 / -96465292 +- days and times of day), of TimeDelta (i64::MAX/1000 s), of i64, up to +-f64::MAX, and 100 "
             "(quick) / 1000 (thorough) random serials 1e0..1e308 of both signs (op date: no panic; a date id beyond the range shows the "
             "General text; model answers for the 11 covered ids), and excel_to_date_time_object_checked against the model and against "
-            "the panicking public function on the same serials (op edt). non-trivial = the oracle was applicable (value and pattern inside the property's "
+            "the panicking public function on the same serials (op edt); every id 0..70 x ~180 values of the dispatcher stream "
+            "(DISP_VALUES: whole / negative whole / both zeros / halves / tiny / huge / the usize edge / rounding boundaries / long "
+            "fractions / calendar edges, + 40 (quick) / 400 (thorough) random) with the double's bit pattern and the texts of abs % 1, "
+            "* 24, abs * 24 (op disp: no panic; full text against the dispatcher model), 25 custom codes x 8 values (op dispc, exploration, "
+            "incl. the quoted-literal witness). non-trivial = the oracle was applicable (value and pattern inside the property's "
             "quantifier and the u128 reference did not overflow) or the cell returned a value; distinct = distinct request line",
     "trusted_base": TB_COMMON + [
         "Rust f64 Display prints every finite value positionally as -?D+(.D+)? in shortest round-trip form, and FromStr accepts the documented grammar; "
         "parse->to_string is the identity on plain decimal texts of <= 15 significant digits (DBL_DIG) and <= 300 characters; "
         "the harness re-checks the fixed point on every value it sends",
-        "fancy_regex behaviour of SECTION/ESCAPE/DATE_TIME/PERCENT/THOUSANDS/SCALE/FRACTION/NUMBER regexes on the 28 grammar patterns: "
-        "modelled as 'single section, number or percent path, decimals = zeros after the point', tied behaviourally",
+        "fancy_regex behaviour of every pattern of the dispatcher (ESCAPE, SECTION, colour, condition, `_.`, DATE_TIME, `%$`, thousands, "
+        "scale, trailing comma, fraction, square bracket, number, `\\$[^0-9]*`, the three patterns of format_as_date): each replaced by a "
+        "hand-written matcher in Model/NumFmtDispatch.lean (not proved equal to the regex); tied by the disp stream on all built-in ids",
+        "f64: `abs`, `% 1`, `* 24`, comparisons with 0 and Display — the model reads the sign off the text and takes the texts of abs % 1 and "
+        "* 24 as inputs (the harness computes them with the same operations and re-checks them)",
         "the harness oracle (u128 arithmetic on the decimal text) is independent of both the library and the Lean model",
         "chrono 0.4.38..0.4.45: TimeDelta::try_seconds is Some iff |s| <= i64::MAX/1000, try_days/hours/minutes = checked_mul then try_seconds; "
         "NaiveDateTime::checked_add_signed is Some iff the sum lies in -262143-01-01T00:00:00 ..= +262142-12-31T23:59:59; %Y prints 4 digits for "
@@ -54,17 +79,25 @@ PROP = {
         "rounding is of the shortest decimal text of the double, not of its exact binary value (1.005 under 0.00 -> 1.01, as Excel)",
     ],
     "partial_clauses": [
-        "'formatting never panics for any built-in format code and any finite number': proved (C19_date_no_panic, every value) for the built-in "
-        "date/time ids 14-22, 30, 45 as far as the model covers the dispatch (replacement tables regenerated; regex stages = identity on these "
-        "codes, tied behaviourally); for ids 0-4, 9, 10, 49 the grammar theorems give a text for every plain decimal text; all other ids "
-        "(11-13, 27-29, 31-40, 44, 46-48, 50-70: quoted literals, locale prefixes, [h], sections, colours, scientific, fractions) are explored "
-        "by the harness only (ids 0..70 x 200 values + ~175 extreme serials per quick run); ids 5-8, 23-26, 41-43, 63-66 have no entry in the crate's table",
-        "format codes outside (#,##)?0(.0+)?%? / General / @ (sections, colours, currency, scientific, fractions, dates) are not modelled; "
-        "the model answers 'unmodelled' and such cases only feed the panic exploration",
+        "'formatting never panics for any built-in format code and any finite number': proved (C19_builtin_no_panic) for all 58 ids of the "
+        "crate's table on the dispatcher MODEL; what stays below the theorem and is tied behaviourally only: the matchers standing for the "
+        "fancy_regex patterns (ESCAPE / SECTION / colour / `_.` / DATE_TIME / `%$` / thousands / scale / fraction / `[..]` / number / `$` prefix / "
+        "locale prefix / lower-casing), chrono's strftime, f64 arithmetic and Display behind Env (abs % 1 prints as 0 | 0.D+; * 24 prints "
+        "without %), and panics inside library code (regex engine, chrono) on inputs the model considers fine; ids 5-8, 23-26, 41-43, 63-66 "
+        "have no entry in the crate's table",
+        "the TEXT under fraction codes (ids 12, 13, 69, 70 on non-usize values) is not modelled (gcd and printing of floats): outcome class and "
+        "branch only; the text under every other built-in id is modelled and compared in full",
+        "format codes outside the built-in table: sections with conditions ([>100]), scaling commas, date codes with unclosed quotes or "
+        "non-ASCII text outside quotes are answered 'unmodelled'; other custom codes are explored by 25 codes x 8 values per run (dispc), not proved; two of them PANIC on the current tree "
+        "(a colour in a sixth section: colors[idx] out of bounds; four scaling commas: 1000i32.pow(4) overflows) — predicted by the model "
+        "(C19_custom_code_panics), confirmed by the stream on every run, not repaired, outside the property's quantifier",
+        "what the text SAYS under ids 11, 48 (no exponent), 37-40, 44 (sign / parentheses of negative numbers lost, '$ -??0' for zero), "
+        "32, 33 (minutes rendered as month) is proved / tied as it is, not judged: the property's rounding clause speaks of the plain "
+        "fixed-decimal and percentage patterns only",
         "to_formatted_string on numeric-looking strings that are not shortest forms (1.50, 1e5) normalises them; only the cell-level "
         "entry point (text cells, after fix_2) shows such text unchanged",
     ],
-    "technique": "Lean 4 proof over a digit-list model + arithmetic rounding spec; differential tie + independent integer oracle",
+    "technique": "Lean 4 proof over a digit-list model + arithmetic rounding spec + dispatcher model (decide over the regenerated built-in table, lemmas per formatter); differential tie + independent integer oracle",
     "timeout_quick": 600,
     "timeout_thorough": 2400,
 }
